@@ -20,7 +20,7 @@ def sim_part(run, exe_unused, results, env):
     run.cov["simulated_configurations"] = {"K": K2, "behaviours_per_worker": num, "workers": 4, "depth": 700}
 
 
-def pool_part(run):
+def pool_part(run, prop="C02", env=None, on_res=None, wanted_or=None):
     """the waiter pool every slow path draws from (common.c nsync_waiter_new_/free_/waiter_destroy + its spinlock), which the Mu.tla
     harness runs atomically: Pool.tla, every transition replayed on the real functions at the granularity of the spinlock's operations"""
     import shutil
@@ -43,7 +43,9 @@ def pool_part(run):
         sched = os.path.join(d, "%s.sched" % name)
         init = "harness=h_pool MaxW=%d progs=%s" % (maxw, ";".join("".join(o[0] for o in p) for p in progs))
         steps = tlcgraph.write_schedule(sched, g, tours, init, obs_fmt=tlcgraph.fmt_obs_noghost)
-        res = run_harness(exe, ["replay", sched, REPLAYS], env={"VERIF_PROP": "C02"})
+        res = run_harness(exe, ["replay", sched, REPLAYS], env=dict({"VERIF_PROP": prop}, **(env or {})))
+        if on_res:
+            on_res(res)
         st = res["stats"]
         run.add("states", info["distinct"]); run.add("transitions", len(g.edges)); run.add("traces_validated_against_impl", st.get("matched", 0))
         run.add("evaluations", st.get("tours", 0)); run.add("distinct_nontrivial", st.get("nontrivial", 0)); run.add("transitions_replayed", steps)
@@ -53,7 +55,11 @@ def pool_part(run):
             run.note("DIVERGENCE in Pool/%s (spec/code; not a violation by itself): %s" % (name, res["mismatch"]))
             run.cov["conformant"] = False
         for v in res["viols"]:
-            run.violation("%s|%s|Pool/%s" % (v[0], v[1], name), v[4], v[5])
+            if wanted_or is None or v[0] in wanted_or:
+                run.violation("%s|%s|Pool/%s" % (v[0], v[1], name), v[4], v[5])
+        if prop != "C02":
+            os.unlink(sched)
+            continue
         for k, f in enumerate(tlcgraph.analyse(g)):
             if f["name"] not in wanted:
                 continue
